@@ -2,7 +2,7 @@
    Extracted to OCaml (ocaml/main.ml feeds it one line at a time) and also evaluated
    inside Coq with vm_compute for the extraction cross-check. *)
 From Coq Require Import List String.
-From RashV Require Import Sexp StateCase UsageCase EngineCase FindCase TplCase ExecCase.
+From RashV Require Import Sexp StateCase UsageCase EngineCase FindCase TplCase ExecCase TailCase.
 Import ListNotations.
 Open Scope string_scope.
 
@@ -17,6 +17,7 @@ Definition dispatch (e : sexp) : option sexp :=
   | SList (Atom "matchtoks" :: _) => run_matchtoks e
   | SList (Atom "canon" :: _) => run_canon e
   | SList (Atom "sortstrings" :: _) => run_sortstrings e
+  | SList (Atom "tail" :: _) => run_tail e
   | SList (Atom "engine" :: _) => run_engine e
   | SList (Atom "find" :: _) => run_find e
   | SList (Atom "plain" :: _) => run_plain e
